@@ -256,6 +256,9 @@ def tsan_cases(ctx):
         for phase in ("neverrun", "rebooted"):
             for action in ("read", "destroy"):
                 cases.append("afterwait %s %d %s %s" % (kind, g.r.randint(1, 10 ** 6), phase, action))
+    for kind in ("kf", "sis"):
+        for _ in range(ctx.n(1, 3)):
+            cases.append("initfail %s %d" % (kind, g.r.randint(1, 10 ** 6)))     # failing, slow initialisation vs commands
     if not ctx.quick():
         cases.append("extlog kf %d LOG" % g.r.randint(1, 10 ** 6))      # advisory: logging reconfigured while stepping
         cases.append("extlog sis %d LOG" % g.r.randint(1, 10 ** 6))
@@ -402,6 +405,9 @@ def run(ctx):
     # ---- evidence
     hist = {}
     for r in runs:
+        if r["line"].startswith("initfail"):
+            hist["initfail"] = hist.get("initfail", 0) + 1
+            continue
         if r["line"].startswith("extlog"):
             hist["extlog (advisory)"] = hist.get("extlog (advisory)", 0) + 1
             continue
